@@ -146,6 +146,8 @@ pub enum Domain {
     TinyAnySign,
     /// like TinyPositive but the prices themselves stay normal numbers (1e-306 .. 1e-297)
     TinyNormal,
+    /// positive prices in an enormous unit: 1e304 .. 5e307 (sums of three stay finite, 100*x does not)
+    Huge,
 }
 
 pub const N_REGIMES: usize = 10;
@@ -224,6 +226,11 @@ pub fn expand(domain: Domain, regime: usize, base: f64, aux: f64, noise: &[f64])
                 *v = (q * g).clamp(g, if base > 1e6 { base * 1e7 } else { 1e9 });
             }
         }
+        Domain::Huge => {
+            for v in out.iter_mut() {
+                *v = v.abs().clamp(base * 1e-3, 5e307);
+            }
+        }
         Domain::TinyPositive | Domain::TinyNormal => {
             for v in out.iter_mut() {
                 *v = v.abs().clamp(base * 1e-3, base * 1e7);
@@ -283,6 +290,7 @@ fn base_strategy(domain: Domain) -> BoxedStrategy<f64> {
         Domain::TinyPositive => prop_oneof![Just(1e-300), Just(3e-310), Just(2e-306)].boxed(),
         Domain::TinyAnySign => prop_oneof![Just(1e-305), Just(4e-303)].boxed(),
         Domain::TinyNormal => prop_oneof![Just(1e-300), Just(2e-303), Just(5e-304)].boxed(),
+        Domain::Huge => prop_oneof![Just(2e306), Just(5e305), Just(1e304)].boxed(),
         Domain::PositiveGrid => prop_oneof![
             12 => (-6i32..=20).prop_map(|k| 2f64.powi(k)),
             1 => Just(2f64.powi(-70)),
@@ -305,7 +313,7 @@ pub fn stream(domain: Domain, min_len: usize, max_len: usize) -> BoxedStrategy<S
         .prop_map(move |(regime, base, aux, noise)| {
             let regime = if domain != Domain::AnySign && regime >= 8 { regime - 8 } else { regime };
             // spikes of 1e6x would leave the tiny range: use the walk instead
-            let regime = if matches!(domain, Domain::TinyPositive | Domain::TinyAnySign | Domain::TinyNormal) && (regime == 3 || regime == 2) { 0 } else { regime };
+            let regime = if matches!(domain, Domain::TinyPositive | Domain::TinyAnySign | Domain::TinyNormal | Domain::Huge) && (regime == 3 || regime == 2) { 0 } else { regime };
             Stream { regime, vals: expand(domain, regime, base, aux, &noise) }
         })
         .boxed()
